@@ -54,6 +54,8 @@ func init() {
 				{Scenario: "c08_rollback", Params: mustJSON(RollbackParams{Fail: "reopen"}), Bound: 0, Shards: 2},
 				{Scenario: "c08_rollback", Params: mustJSON(RollbackParams{Fail: "failoverlog-silent"}), Bound: 0, Shards: 2, Note: "the failover-log query is never answered"},
 				{Scenario: "c08_rollback", Params: mustJSON(RollbackParams{Fail: "reopen-silent"}), Bound: 0, Shards: 2, Note: "the second stream request is never answered"},
+				{Scenario: "reopen_life", Params: mustJSON(LifeParams{Oracle: "tuple", Segs: 2, EarlySave: true}), Bound: 0, Shards: 8, Note: "a save BEFORE the branch changes and one after: the stored checkpoint carries the new branch's vbUUID"},
+				{Scenario: "c06_reopen", Params: mustJSON(struct{}{}), Bound: 0, Shards: 2, Note: "transient end, re-open answered with a rollback; mutations, deletions and expirations (small revision numbers) on the new branch"},
 				{Scenario: "reopen_life", Params: mustJSON(LifeParams{Oracle: "delivery", Segs: 2}), Bound: 0, Shards: 8, Note: "rollbacks answered to RE-opens of a running session, including a second rollback to the same position with no progress in between"},
 			}
 		},
@@ -106,8 +108,18 @@ func rollbackMain(p RollbackParams) {
 	}
 	// post-rollback history on the new branch (only seqnos > R are sent)
 	var log []gocbcore.SimPacket
+	kinds := "mutation"
+	if p.Fail == "" {
+		kinds = []string{"mutation", "deletion", "mixed"}[vrt.Choose(3, true, "kinds-on-the-new-branch")]
+	}
 	item := func(s uint64) gocbcore.SimPacket {
-		return docPacket("mutation", s, fmt.Sprintf("new%d", s), "after", 0)
+		k := kinds
+		if k == "mixed" {
+			k = []string{"deletion", "mutation", "expiration"}[s%3]
+		}
+		pk := docPacket(k, s, fmt.Sprintf("new%d", s), "after", 0)
+		pk.RevNo = 1 + s%2 // realistic: revision numbers are small and unrelated to sequence numbers
+		return pk
 	}
 	switch script {
 	case 0:
@@ -278,6 +290,7 @@ func reopenRollbackMain() {
 	R := uint64(vrt.Choose(F+1, true, "R"))
 	layout := vrt.Choose(4, true, "new-branch-layout")
 	malformed := vrt.Choose(2, true, "malformed") == 1
+	kinds := []string{"mutation", "deletion", "expiration", "mixed"}[vrt.Choose(4, true, "kinds-on-the-new-branch")]
 	o := EnvOpts{Vbs: 1, CheckpointType: "manual", WrapMeta: true}
 	c := NewCluster(&o)
 	const oldUUID, newUUID = 900, 901
@@ -295,7 +308,13 @@ func reopenRollbackMain() {
 		return
 	}
 	item := func(s uint64) gocbcore.SimPacket {
-		return docPacket("mutation", s, fmt.Sprintf("new%d", s), "after", 0)
+		k := kinds
+		if k == "mixed" {
+			k = []string{"deletion", "mutation", "expiration"}[s%3]
+		}
+		p := docPacket(k, s, fmt.Sprintf("new%d", s), "after", 0)
+		p.RevNo = 1 + s%2 // realistic: revision numbers are small and unrelated to sequence numbers
+		return p
 	}
 	type snap struct{ a, b uint64 }
 	announced := map[uint64]snap{}
@@ -343,7 +362,7 @@ func reopenRollbackMain() {
 		}
 		addSnap(F+1, F+20, F+7, F+20)
 	}
-	outcome := fmt.Sprintf("R=%d layout=%d", R, layout)
+	outcome := fmt.Sprintf("R=%d layout=%d kinds=%s", R, layout, kinds)
 	if malformed {
 		// an item beyond the last announced snapshot but inside the OLD stream's [1,100]
 		last := log[len(log)-1]
